@@ -161,6 +161,7 @@ type sched struct {
 	nodeHash  []uint64
 	thash     uint64
 	objs      map[unsafe.Pointer]*objState
+	chanIDs   map[unsafe.Pointer]int // creation rank of channels made by instrumented code (maps.go)
 	fsum      uint64   // commutative combination of all thread hashes: the state fingerprint
 	fps       []uint64 // fingerprint at each recorded decision
 	epochAt   []uint64 // write epoch at each recorded decision
